@@ -490,7 +490,9 @@ PROPS["C15"] = dict(
               "For logs of up to 12 (thorough 30) messages the kill point is enumerated over EVERY offset, entering and leaving. Oracle on the "
               "child's unbuffered event log: offsets handed consecutively within an incarnation with the payload that was appended there; the "
               "first offset ever handed is 0; a restart resumes no later than the first offset not completely handed and no earlier than the "
-              "last completed one (minus one for parent-timed kills); after a final idle incarnation every appended offset has been handed."),
+              "last completed one (minus one for parent-timed kills); after a final idle incarnation every appended offset has been handed. "
+              "Large-backlog run: the scheduler is stuck on an early message (crash mode stall:k) while 560 (thorough up to 2100) messages of "
+              "40-300 KiB each (80-150 MiB, several segments) are appended, the process is killed, and the next incarnation must be handed all of them."),
         note=("Trusted: Go toolchain, rapid, the child harness in harness/c15 (its log wrapper records E/X lines with one write(2) each; self-kills "
               "take the mutex the appender holds around Append, so no append is ever cut short). Power-loss durability (page cache) is outside the statement."),
         technique="crash-point enumeration (exhaustive for small logs) + property-based generation of crash/restart rounds with real SIGKILL",
@@ -503,6 +505,7 @@ PROPS["C15"] = dict(
         dict(name="regress", pkg="c15", run="TestRegress", timeout=300),
         dict(name="enum", pkg="c15", run="TestEnumSmall", shards=dict(quick=8, thorough=16), timeout=dict(quick=400, thorough=2400)),
         dict(name="random", pkg="c15", run="TestRandom", checks=dict(quick=800, thorough=3000), shards=16, timeout=dict(quick=400, thorough=2400), shrinktime="60s"),
+        dict(name="backlog", pkg="c15", run="TestLargeBacklog", timeout=dict(quick=400, thorough=1800)),
     ],
 )
 
